@@ -13,7 +13,7 @@ world.jsonable():  exceptions are ["!exc", typename, tag].
 
 EXC_PARENTS = {"E0": ["E0", "Exception"], "E1": ["E1", "E0", "Exception"], "E2": ["E2", "Exception"],
                "E3": ["E3", "ValueError", "Exception"], "Fault": ["Fault", "Exception"],
-               "TypeError": ["TypeError", "Exception"]}
+               "TypeError": ["TypeError", "Exception"], "EB": ["EB", "BaseException"]}
 
 
 def isinstance_name(exc_type, base):
